@@ -271,11 +271,12 @@ def main():
         if not jobs:
             continue
         # conf keys every shared harness may read: "for" (the property whose labels a shared harness asserts;
-        # empty = all), "fieldmask" (dagenv: commits that write the field; 0 = all)
+        # empty = all), "fieldmask" (dagenv: commits that write the field; 0 = all), "or" (C07 read harness: filter shape)
         for j in jobs:
             j.setdefault("conf", {})
             j["conf"].setdefault("for", "")
             j["conf"].setdefault("fieldmask", 0)
+            j["conf"].setdefault("or", 0)
         meta = {j["id"]: j for j in jobs}
         ejobs = []
         for j in jobs:
